@@ -89,4 +89,61 @@ def runCOps (sc : Schema) (db : Db) : List COp → Db
 def holdsB (sc : Schema) (db : Db) : Bool :=
   (dump db.c).all (fun (k, r) => notNullOk sc r && checkOk sc r && fkOk sc db.p r && !clashesAny sc db.c k r)
 
+/-! ### merge-time validation (transaction merges and branch merges)
+
+`merge/merge_prolly_rows.go`: while the three-way diff of a table is applied, `nullValidator`,
+`checkValidator` and `uniqValidator` look at every diff that changes OUR row (`RightAdd`,
+`RightModify`, `DivergentModifyResolved`): the new row version is checked for NULL in a NOT NULL
+column, evaluated against the CHECK constraints and looked up in the unique indexes — a collision
+records BOTH rows.  After all tables are merged `AddForeignKeyViolations(merged, ancestor)` walks
+the ancestor→merged diff of every foreign key: deleted parent rows are looked up in the child's index
+(`parentFkConstraintViolations`), added/modified child rows are looked up in the parent
+(`childFkConstraintViolations`).  Everything found is recorded as a constraint-violation artifact of
+the row; `validateWorkingSetForCommit` rejects the commit when there are artifacts and
+`dolt_force_transaction_commit` is off.  Abstract-algorithm model over plain roots: the detection is
+driven by the diffs only, never by a scan of the merged table. -/
+
+/-- keys bound differently in two roots -/
+def changedKeys (a m : Root) : List Key :=
+  ((keys a ++ keys m).eraseDups).filter (fun k => !(get a k == get m k))
+
+/-- null/check/unique validators on one diffed row of the merged child table -/
+def rowViolates (sc : Schema) (m : Root) (k : Key) : Bool :=
+  match get m k with
+  | none => false
+  | some r => !(notNullOk sc r && checkOk sc r) || clashesAny sc m k r
+
+/-- `k` is the other row of a unique collision found while validating a diffed row -/
+def uniqPartner (sc : Schema) (m : Root) (diffs : List Key) (k : Key) : Bool :=
+  match get m k with
+  | none => false
+  | some r => diffs.any (fun k' => k' != k && match get m k' with
+      | some r' => clash sc r r' || clash sc r' r
+      | none => false)
+
+/-- a child row references a parent key that the ancestor→merged diff deleted -/
+def refsDeletedParent (sc : Schema) (deleted : List Key) (r : Row) : Bool :=
+  sc.fks.any (fun col => deleted.any (fun j => cellAt r col == some (.int j)))
+
+/-- the child keys that get a constraint-violation artifact: `S` = ancestor, `E` = ours, `M` = merged -/
+def recordedViolations (sc : Schema) (pS cS cE pM cM : Root) : List Key :=
+  let rowDiffs := changedKeys cE cM
+  let childDiffs := changedKeys cS cM
+  let parentDeleted := (changedKeys pS pM).filter (fun j => (get pM j).isNone)
+  ((keys cM).eraseDups).filter (fun k =>
+    (decide (k ∈ rowDiffs) && rowViolates sc cM k)
+    || uniqPartner sc cM rowDiffs k
+    || (decide (k ∈ childDiffs) && match get cM k with | some r => !fkOk sc pM r | none => false)
+    || (match get cM k with | some r => refsDeletedParent sc parentDeleted r | none => false))
+
+/-- full evaluation of one child row of a database (what the property demands of committed data) -/
+def violatesB (sc : Schema) (p c : Root) (k : Key) : Bool :=
+  match get c k with
+  | none => false
+  | some r => !(notNullOk sc r && checkOk sc r && fkOk sc p r) || clashesAny sc c k r
+
+/-- `validateWorkingSetForCommit` after a merge: artifacts ⇒ rejected unless forced -/
+def commitMerged (sc : Schema) (pS cS cE pM cM : Root) (force : Bool) : Option Db :=
+  if (recordedViolations sc pS cS cE pM cM).isEmpty || force then some ⟨pM, cM⟩ else none
+
 end DoltVerif.TxnCons
